@@ -100,6 +100,18 @@ def hand_programs():
         N("case", greedy=False, clauses=[
             N("clause", preds=[N("concat", parts=[N("lit", bs=b"a", form="s"), N("end")])], body=[N("hook", name="h0")], prio=None),
             N("clause", preds=[N("lit", bs=b"ab", form="s")], body=[N("hook", name="h1"), E], prio=None)])]))
+    n0 = N("out", name="n0", typ="int", signed=None, width=None, default=0)
+    num = lambda v: N("num", v=v, text=str(v))
+    # finish statements in every position: the parser has reached its end, end() afterwards says DONE as well
+    out.append(N("prog", outs=[n0], hooks=[], fcodes=[], ycodes=[], macros=[], args=[], body=[
+        N("loop", label=None, body=[L(b"d"), N("match", p=N("rx", tree=("set", [("range", 48, 57), ("ch", 101)], False), binary=False)),
+                                    N("if", branches=[(N("bin", op="!=", a=num(49), b=num(1000)), [N("break", label=None)])], orelse=None)]), N("finish", code=None)]))
+    out.append(N("prog", outs=[n0], hooks=["h0"], fcodes=[], ycodes=[], macros=[], args=[], body=[L(b"0 "), N("finish", code=None)]))
+    out.append(N("prog", outs=[n0], hooks=["h0"], fcodes=[], ycodes=[], macros=[], args=[], body=[
+        L(b"a"), N("if", branches=[(N("bin", op="==", a=N("var", name="n0"), b=num(0)), [N("finish", code=None)])], orelse=None), L(b"b")]))
+    out.append(N("prog", outs=[n0], hooks=["h0"], fcodes=[], ycodes=[], macros=[], args=[], body=[
+        N("case", greedy=False, clauses=[N("clause", preds=[N("lit", bs=b"a", form="s")], body=[N("hook", name="h0"), N("finish", code=None)], prio=None),
+                                         N("clause", preds=[N("lit", bs=b"b", form="s")], body=[L(b"c")], prio=None)]), L(b"z")]))
     return out
 
 
